@@ -17,6 +17,7 @@ RULE = ("Fitted KNNSupervisedOPF / UnsupervisedOPF models (C13's generators; k r
         "both admitted); admissible results = label (and cluster) of any neighbour that can maximise min(cost, density) in some admissible set. "
         "The returned result must be admissible. Non-trivial: k>=2, >=2 distinct results among the k nearest and the query density strictly between "
         "two neighbour costs; distinct = case hash.")
+RULE += (' For unsupervised models that had not propagated labels before, labels are propagated AFTER the first predictions and the batch is predicted and judged again.')
 ASSUMPTIONS = [
     "the fitted model (costs, labels, clusters, constant, density range, best_k) is taken from the implementation (C12/C13/C16 judge it)",
     "the statement fixes neither the divisor (k or k+1) nor the guard epsilon of the range map: both divisors are admitted; models whose stored density range is empty (max==min) are skipped and counted",
